@@ -113,7 +113,10 @@ def gemato_load(text, verify=False, env=None):
         return ('unsigned',), m
     except BaseException as e:
         return ('exc', type(e).__name__), m
-    return ('ok', [list(e.to_list()) for e in m.entries]), m
+    try:
+        return ('ok', [list(e.to_list()) for e in m.entries]), m
+    except BaseException as e:
+        return ('exc', 'to_list:' + type(e).__name__), m
 
 
 class FakeEnv:
